@@ -164,6 +164,9 @@ def _run_trial(sc, trial, agg):
                     w.violate('C06', 'framing-not-shutdown', sc['config']['face'], 'stream_face.run',
                               f'{desc}: after the stream ended the face is running={face.running}, '
                               f'run() returned={bool(state.get("run_returned"))}')
+        if trial['end'] in ('eof', 'reset') and state.get('run_returned') and peer.writer is not None and not peer.writer.closed:
+            w.violate('C06', 'framing-not-closed', sc['config']['face'], 'stream_face.run',
+                      f'{desc}: the stream ended and run() returned, but the connection was not closed')
         for rep in w.loop.exc_reports:
             e = rep['exc']
             w.violate('C06', 'loop-exc', sc['config']['face'], innermost_ndn_frame(e) if e else 'loop',
